@@ -478,6 +478,17 @@ impl Prop for GeneratedVoice {
             Err(e) => fail!("load-valid-voice", "Engine::load rejects a well-formed generated voice: {}", e),
         };
         check_engine_defaults(&engine, &file, &c.labels[..2.min(c.labels.len())])?;
+        // the defaults are those of the header also when the Condition served another voice before
+        // (options the new header does not list fall back to the format defaults, not to the old voice)
+        if c.labels.len() % 3 == 0 {
+            let prior = super::c01::prior_voice_set(c.labels.len() % 2 == 0)?;
+            let mut cond = jbonsai::Condition::default();
+            let ok = cond.load_model(&prior).is_ok() && cond.load_model(&engine.voices).is_ok();
+            ensure!(ok, "engine-defaults", "Condition::load_model failed on valid voices");
+            let reused = Engine::new(engine.voices.clone(), cond);
+            check_engine_defaults(&reused, &file, &c.labels[..1.min(c.labels.len())])?;
+            rep.class("condition-loaded-for-another-voice-first");
+        }
         rep.nontrivial = passed >= 1;
         rep.class(format!("source:{}", c.source));
         rep.class(format!("streams:{}", c.voice.streams.len()));
